@@ -38,7 +38,7 @@ func c16Config(t *rapid.T, p *Profile) WorldConfig {
 	for i := range names {
 		names[i] = fmt.Sprintf("t.r%d", i)
 	}
-	targets := append(append([]string{}, names...), "t.m", "t.q?a=1")
+	targets := append(append([]string{}, names...), "t.m", "t.q?a=1", "t.q?b=1", "t.q?c=1", "t.q")
 	val := func() Val {
 		switch k := rapid.IntRange(0, 11).Draw(t, "vk"); {
 		case k < 5:
@@ -70,7 +70,11 @@ func c16Config(t *rapid.T, p *Profile) WorldConfig {
 		}
 	}
 	defs = append(defs, ResDef{Name: "t.m", Type: "model", Missing: true},
-		ResDef{Name: "t.q", Type: "model", Model: map[string]Val{"x": Prim("1"), "back": Ref("t.r0")}, QueryMap: map[string]string{"a=1": "a=1"}})
+		// query variants of one name referencing each other (pagination): each is a
+		// resource of its own for cycle cutting
+		ResDef{Name: "t.q", Type: "model", Model: map[string]Val{"x": Prim("1"), "back": Ref("t.r0"),
+			"next": Ref(rapid.SampledFrom([]string{"t.q?b=1", "t.q?a=1", "t.q?c=1", "t.q", "t.r0"}).Draw(t, "qnext"))},
+			QueryMap: map[string]string{"a=1": "a=1", "b=1": "b=1", "c=1": "a=1"}})
 	return WorldConfig{Resources: defs,
 		APIEncoding: rapid.SampledFrom([]string{"json", "jsonflat"}).Draw(t, "encoding"),
 		APIPath:     rapid.SampledFrom([]string{"/api/", "/", "/v1/res/"}).Draw(t, "apipath")}
@@ -222,7 +226,7 @@ func c16Scenario(t *rapid.T, w *World, p *Profile) {
 			rids = append(rids, d.Name)
 		}
 	}
-	rids = append(rids, "t.q?a=1")
+	rids = append(rids, "t.q?a=1", "t.q?b=1", "t.q?c=1")
 	k := rapid.IntRange(1, 3).Draw(t, "ngets")
 	for i := 0; i < k; i++ {
 		rid := rapid.SampledFrom(rids).Draw(t, "rid")
